@@ -468,6 +468,7 @@ def _rate_classes(run, prog):
         _nonneg(run, ci, ev, K)
     _degenerate_1d(run, prog)
     _photon_conversion(run, prog)
+    run.include('C06', set(REPO), 'every rate the provider returns is what the repository getter read: stored record for the stored key, RuntimeError when missing')
     _call_forwards(run, prog)
     if n_interp < 13:
         raise AnalysisError('only %d interpolating rate classes found (floor 13)' % n_interp)
